@@ -202,6 +202,59 @@ def _std_callee(model, path, name, self_ty=None, trait=None):
     return c
 
 
+BOOL_THEN = "core::bool::<impl bool>::then"
+
+
+def _desugar_bool_then(prog, locals_, blocks, bi):
+    """`cond.then(|| e)` with a closure built here is `if cond { Some(e) } else { None }`"""
+    b = blocks[bi]
+    t = b["term"]
+    ck = _closure_of_operand(blocks, t["args"][1])
+    cf = prog.fns.get(ck) if ck else None
+    if cf is None or cf.kind != "Closure" or cf.arg_count != 1 or not cf.d.get("blocks"):
+        return
+    line = t.get("line")
+    model = t["callee"]
+    ret_ty = cf.d["locals"][0]["ty"]
+    dest, target = t["dest"], t["target"]
+
+    def new_local(ty):
+        locals_.append({"ty": ty, "name": None, "synthetic": True})
+        return len(locals_) - 1
+
+    def pl(l, p=None):
+        return {"l": l, "p": p or []}
+
+    def blk(stmts, term):
+        term.setdefault("line", line)
+        term.setdefault("exp", False)
+        for s in stmts:
+            s.setdefault("line", line)
+            s.setdefault("exp", False)
+        blocks.append({"stmts": stmts, "term": term, "cleanup": False})
+        return len(blocks) - 1
+    l_cl = new_local(cf.d["locals"][1]["ty"].lstrip("&").replace("mut ", "", 1).strip())
+    l_r = new_local(ret_ty)
+    l_tup = new_local("()")
+    n0 = len(blocks)
+    none_b, some_b, wrap_b = n0, n0 + 1, n0 + 2
+    blk([{"k": "assign", "dst": copy.deepcopy(dest),
+          "rv": {"k": "aggr", "kind": "adt", "adt": "core::option::Option", "variant": "None", "variant_idx": 0, "args": [], "fields": [], "ops": []}}],
+        {"k": "goto", "target": target})
+    callee_cl = _std_callee(model, "core::ops::function::FnOnce::call_once", "call_once", None, "core::ops::function::FnOnce")
+    callee_cl["resolved"] = {"path": ck, "full": ck, "local": True, "args": [], "kind": "Item"}
+    blk([{"k": "assign", "dst": pl(l_tup), "rv": {"k": "aggr", "kind": "tuple", "ops": []}}],
+        {"k": "call", "callee": callee_cl, "func": {"k": "const", "ty": "fn item (synthetic)"},
+         "args": [{"k": "move", "place": pl(l_cl)}, {"k": "move", "place": pl(l_tup)}], "dest": pl(l_r), "target": wrap_b, "unwind": None})
+    blk([{"k": "assign", "dst": copy.deepcopy(dest),
+          "rv": {"k": "aggr", "kind": "adt", "adt": "core::option::Option", "variant": "Some", "variant_idx": 1, "args": [], "fields": ["0"],
+                 "ops": [{"k": "move", "place": pl(l_r)}]}}],
+        {"k": "goto", "target": target})
+    b["stmts"] = b["stmts"] + [{"k": "assign", "dst": pl(l_cl), "rv": {"k": "use", "op": t["args"][1]}, "line": line, "exp": False}]
+    b["term"] = {"k": "switch", "op": t["args"][0], "ty": "bool", "targets": [[0, none_b]], "otherwise": some_b, "line": line, "exp": False,
+                 "desugared": BOOL_THEN}
+
+
 def _desugar_adaptors(prog, locals_, blocks):
     """`it.try_for_each(|x| body)` / `it.for_each(|x| body)` with a closure built in this function are the loop they
     abbreviate: `while let Some(x) = it.next() { body(x)? }`.  The call is replaced by that loop (synthetic blocks calling
@@ -213,6 +266,9 @@ def _desugar_adaptors(prog, locals_, blocks):
         if t["k"] != "call" or b["cleanup"] or not t.get("callee") or len(t.get("args", [])) != 2:
             continue
         path = t["callee"]["path"]
+        if path == BOOL_THEN and t.get("target") is not None and not t["dest"]["p"]:
+            _desugar_bool_then(prog, locals_, blocks, bi)
+            continue
         if path not in (TRY_FOR_EACH, FOR_EACH) or t.get("target") is None or t["dest"]["p"]:
             continue
         ck = _closure_of_operand(blocks, t["args"][1])
